@@ -263,16 +263,38 @@ def check_proofs(pid, thorough):
 
 # ------------------------------------------------------------------------------------ correspondence
 
-def run_cases(component, lines, harness=None, timeout=600):
-    """lines: list of '<id>\\t<input>'. returns list of verdict dicts"""
+def run_cases(component, lines, harness=None, timeout=600, parallel=1):
+    """lines: list of '<id>\\t<input>'. returns list of verdict dicts. parallel > 1 spreads the cases over several
+    harness processes (each case is independent)."""
     harness = harness or HARNESS
-    inp = "\n".join(lines) + "\n"
-    p1 = subprocess.run([harness, "exec", component], input=inp, stdout=subprocess.PIPE, stderr=subprocess.PIPE,
-                        text=True, timeout=timeout, env=dict(os.environ, GOMEMLIMIT="6GiB"))
-    impl_lines = [l for l in p1.stdout.split("\n") if l]
+    parallel = max(1, min(parallel, len(lines)))
+    chunks = [lines[i::parallel] for i in range(parallel)]
+    procs = []
+    for ch in chunks:
+        pr = subprocess.Popen([harness, "exec", component], stdin=subprocess.PIPE, stdout=subprocess.PIPE, stderr=subprocess.PIPE,
+                              text=True, env=dict(os.environ, GOMEMLIMIT="6GiB"))
+        procs.append((pr, "\n".join(ch) + "\n"))
+    import threading
+    results = [None] * len(procs)
+
+    def feed(i, pr, data):
+        try:
+            results[i] = pr.communicate(data, timeout=timeout) + (pr.returncode,)
+        except subprocess.TimeoutExpired:
+            pr.kill()
+            o, e = pr.communicate()
+            results[i] = (o, (e or "") + "\n[verif] harness timed out after %ss" % timeout, -9)
+    ths = [threading.Thread(target=feed, args=(i, pr, data)) for i, (pr, data) in enumerate(procs)]
+    for t in ths:
+        t.start()
+    for t in ths:
+        t.join()
+    impl_lines = []
     crashed = None
-    if p1.returncode != 0:
-        crashed = p1.stderr[-3000:]
+    for out, err, rc in results:
+        impl_lines += [l for l in (out or "").split("\n") if l]
+        if rc != 0:
+            crashed = (err or "")[-3000:]
     p2 = subprocess.run([DRIVER, component], input="\n".join(impl_lines) + "\n", stdout=subprocess.PIPE,
                         stderr=subprocess.PIPE, text=True, timeout=timeout)
     impl_by_id = {}
@@ -423,7 +445,8 @@ def check(pid, tier):
         allv = []
         B = 2000
         for i in range(0, len(lines), B):
-            vs, crashed, derr = run_cases(comp, lines[i:i + B], harness=harness, timeout=prop.get("case_timeout", 900))
+            vs, crashed, derr = run_cases(comp, lines[i:i + B], harness=harness, timeout=prop.get("case_timeout", 1800 if thorough else 150),
+                                          parallel=prop.get("parallel", 1))
             allv += vs
             if crashed:
                 stats["crashes"].append(dict(component=comp, detail=crashed))
